@@ -348,6 +348,17 @@ pub fn is_below(p: &str, q: &str) -> bool {
 }
 
 /// Path of `p` relative to ancestor-or-self `q` (both world-relative).
+/// A component of a glob expression that is the native `.` or `..`, however it is spelled: a class
+/// with one member, a singular alternative and an exact repetition are invariant text just as a
+/// literal is, so `[.][.]/x` is `../x`.
+pub fn dot_kind(component: &str) -> Option<&'static str> {
+    match component {
+        "." | "[.]" | "{.}" => Some("."),
+        ".." | "[.][.]" | "[.]." | ".[.]" | "<.:2>" | "{..}" | "<[.]:2>" | "{.}." => Some(".."),
+        _ => None,
+    }
+}
+
 pub fn rel_to<'a>(p: &'a str, q: &str) -> &'a str {
     if q.is_empty() {
         p
